@@ -50,9 +50,11 @@ def run_block_ops(blk, ops):
     for op in ops:
         try:
             if op[0] == "validate":
-                outs.append(("B", bool(blk.validate(op[1], op[2]))))
+                # the documented default count is 1: every other count-1 call leaves it out
+                outs.append(("B", bool(blk.validate(op[1]) if op[2] == 1 and op[1] % 2 == 0 else blk.validate(op[1], op[2]))))
             elif op[0] == "get":
-                outs.append(("L", [canon(v) for v in blk.getValues(op[1], op[2])]))
+                vs = blk.getValues(op[1]) if op[2] == 1 and op[1] % 2 == 0 else blk.getValues(op[1], op[2])
+                outs.append(("L", [canon(v) for v in vs]))
             elif op[0] == "set":
                 blk.setValues(op[1], list(op[2]))
                 outs.append(("N",))
@@ -235,10 +237,11 @@ def ctx_case(r, label):
         try:
             if k < 0.3:
                 ops.append("CValidate %s %s %s" % (z(fx), z(a), z(c)))
-                outs.append("CB " + boolean(bool(ctx.validate(fx, a, c))))
+                outs.append("CB " + boolean(bool(ctx.validate(fx, a) if c == 1 and a % 2 == 0 else ctx.validate(fx, a, c))))
             elif k < 0.55:
                 ops.append("CGet %s %s %s" % (z(fx), z(a), z(c)))
-                outs.append("CL " + zlist([canon(v) for v in ctx.getValues(fx, a, c)]))
+                vs = ctx.getValues(fx, a) if c == 1 and a % 2 == 0 else ctx.getValues(fx, a, c)
+                outs.append("CL " + zlist([canon(v) for v in vs]))
                 nontriv = True
             elif k < 0.85:
                 vs = [r.randrange(65536) for _ in range(max(c, 1) if r.random() < 0.9 else 0)]
@@ -278,10 +281,11 @@ def default_ctx_case(r):
         try:
             if k < 0.4:
                 ops.append("CValidate %s %s %s" % (z(fx), z(a), z(c)))
-                outs.append("CB " + boolean(bool(ctx.validate(fx, a, c))))
+                outs.append("CB " + boolean(bool(ctx.validate(fx, a) if c == 1 and a % 2 == 0 else ctx.validate(fx, a, c))))
             elif k < 0.7:
                 ops.append("CGet %s %s %s" % (z(fx), z(a), z(c)))
-                outs.append("CL " + zlist([canon(v) for v in ctx.getValues(fx, a, c)]))
+                vs = ctx.getValues(fx, a) if c == 1 and a % 2 == 0 else ctx.getValues(fx, a, c)
+                outs.append("CL " + zlist([canon(v) for v in vs]))
             else:
                 ok = bool(ctx.validate(fx, a, c))
                 if not ok:      # keep the 65536-cell tables their size: only accepted writes
